@@ -309,6 +309,21 @@ class Translator:
         self.ci, self.where, self.fn = ci, f"{ci.cdef.name}.{fn.name}", fn
         self.is_init = fn.name == "__init__"
         self.taint = self.taints(ci, fn)
+        # local aliases of the loop thread object: names whose every assignment in this function is `= self._thread`
+        assigns = {}
+        for st in ast.walk(fn):
+            if isinstance(st, ast.Assign):
+                for t in st.targets:
+                    for x in ast.walk(t):
+                        if isinstance(x, ast.Name):
+                            assigns.setdefault(x.id, []).append(
+                                isinstance(t, ast.Name) and _is_self_attr(st.value, THREAD_ATTR))
+            elif isinstance(st, (ast.AugAssign, ast.AnnAssign, ast.NamedExpr, ast.For)) :
+                tgt = st.target
+                for x in ast.walk(tgt):
+                    if isinstance(x, ast.Name):
+                        assigns.setdefault(x.id, []).append(False)
+        self.thread_aliases = {n for n, oks in assigns.items() if oks and all(oks)}
         self.local_funcs = {s.name for s in ast.walk(fn) if isinstance(s, ast.FunctionDef) and s is not fn}
         self.params = {a.arg for a in fn.args.args + fn.args.kwonlyargs}
         if fn.args.vararg:
@@ -388,10 +403,12 @@ class Translator:
                 return self.stmts(s.body) + self.stmts(s.orelse)
             # self-join guard
             if isinstance(t, ast.Compare) and len(t.ops) == 1 and isinstance(t.ops[0], ast.NotEq) \
-                    and ast.unparse(t.left) == "threading.current_thread()" \
-                    and _is_self_attr(t.comparators[0], THREAD_ATTR) \
-                    and len(s.body) == 1 and ast.unparse(s.body[0]) == f"self.{THREAD_ATTR}.join()" and not s.orelse:
-                return [("JoinLoopUnlessSelf",)]
+                    and ast.unparse(t.left) == "threading.current_thread()" and len(s.body) == 1 and not s.orelse:
+                who = t.comparators[0]
+                # the thread object compared is the one joined: self._thread, or a local alias of it
+                if (_is_self_attr(who, THREAD_ATTR) or (isinstance(who, ast.Name) and who.id in self.thread_aliases)) \
+                        and ast.unparse(s.body[0]) == f"{ast.unparse(who)}.join()":
+                    return [("JoinLoopUnlessSelf",)]
             c = self.cb_of_test(t)
             if c is not None:
                 return self.expr(t) + [("IfCb", c, self.stmts(s.body))] + self.stmts(s.orelse)
@@ -617,6 +634,11 @@ class Translator:
                 self.prob(self.where, e, f"call through unclassified attribute self.{first}")
                 return done(recv)
             # receiver is not self
+            if isinstance(f.value, ast.Name) and f.value.id in self.thread_aliases:
+                if m == "join":
+                    return done([("Block", "unguarded_join")])      # a join outside the recognised self-join guard
+                self.prob(self.where, e, "operation on the loop thread object (local alias)")
+                return done([])
             if m in self.info_sync_methods:
                 return done(recv + [("Call", self.info.plain[m])])
             if m in SYNC_METHOD_NAMES and not _str_join(f):
